@@ -32,6 +32,7 @@ type Engine struct {
 	tkTypes    map[string]types.Type
 	subst      []map[string]types.Type
 	genSrc     map[string]string
+	acqCache   map[*ssa.Function][]string
 	implements map[string]string
 	goarch     string
 	skipped    []*FuncContract // contracts for another GOARCH
@@ -320,6 +321,66 @@ func (vc *VC) rankCheck(lv *LVal, li *LockInv) {
 			vc.oblige("lock:rank:"+h.inv.Type+"<"+li.Type, []string{"C08"}, "false")
 		}
 	}
+}
+
+// acquiresOf lists the lock-invariant types whose mutex fn may acquire, directly or through
+// statically resolved callees (interface calls through the declared `implements` mapping are
+// resolved by the caller's receiver type when it is known).  A syntactic over-approximation:
+// a Lock/RLock call on the embedded mutex of a value of type T counts as acquiring T's lock.
+func (e *Engine) acquiresOf(fn *ssa.Function, seen map[*ssa.Function]bool) []string {
+	fn = origin(fn)
+	if seen[fn] || fn.Blocks == nil {
+		return nil
+	}
+	seen[fn] = true
+	if c, ok := e.acqCache[fn]; ok {
+		return c
+	}
+	set := map[string]bool{}
+	for _, b := range fn.Blocks {
+		for _, ins := range b.Instrs {
+			var cc *ssa.CallCommon
+			switch x := ins.(type) {
+			case *ssa.Call:
+				cc = &x.Call
+			case *ssa.Defer:
+				cc = &x.Call
+			}
+			if cc == nil {
+				continue
+			}
+			callee := cc.StaticCallee()
+			if callee == nil {
+				continue
+			}
+			switch callee.String() {
+			case "(*sync.Mutex).Lock", "(*sync.RWMutex).Lock", "(*sync.RWMutex).RLock":
+				if len(cc.Args) > 0 {
+					if fa, ok := cc.Args[0].(*ssa.FieldAddr); ok {
+						if pt, ok := fa.X.Type().Underlying().(*types.Pointer); ok {
+							if n, ok := pt.Elem().(*types.Named); ok {
+								set[n.Obj().Name()] = true
+							}
+						}
+					}
+				}
+			default:
+				for _, t := range e.acquiresOf(callee, seen) {
+					set[t] = true
+				}
+			}
+		}
+	}
+	var out []string
+	for t := range set {
+		out = append(out, t)
+	}
+	sort.Strings(out)
+	if e.acqCache == nil {
+		e.acqCache = map[*ssa.Function][]string{}
+	}
+	e.acqCache[fn] = out
+	return out
 }
 
 func (e *Engine) rankOf(typ string) (int, bool) {
